@@ -175,6 +175,26 @@ func (rt *RoutingTable) AddRoute(entry RoutingTableEntry) (added bool, err error
 		return rt.addNewDestination(entry, rp)
 	}
 
+	// The first gossip route to a known destination (e.g. a direct peer) makes
+	// it one of the gossip destinations of its prefix: check the prefix limit
+	// as for a new destination.
+	if entry.Source == RouteSourceGossip {
+		hasGossipRoute := false
+		for i := start; i < end; i++ {
+			if rt.entries[i].Source == RouteSourceGossip {
+				hasGossipRoute = true
+				break
+			}
+		}
+		if !hasGossipRoute {
+			prefixStart, prefixEnd := rt.getPrefixSection(entry.RoutingPrefix)
+			if prefixEnd-prefixStart > rp.EntriesPerPrefix*2 {
+				// We already have 2 times the entries we want for this prefix.
+				return false, nil
+			}
+		}
+	}
+
 	// Check if we have this exact route already.
 	for i := start; i < end; i++ {
 		if rt.entries[i].RouteEquals(&entry) {
